@@ -156,6 +156,7 @@ type Sim struct {
 	rpcCount   map[string]int
 	faultsOn   bool
 	release    chan struct{}
+	paused     int
 }
 
 type searchLeg struct {
@@ -814,6 +815,8 @@ func toStatusErr(e error) error {
 	return status.Error(codes.Unknown, e.Error())
 }
 
+func protoUnmarshal(b []byte, m proto.Message) error { return proto.Unmarshal(b, m) }
+
 func (s *Sim) linkUp(from uint64, to uint64) bool {
 	return !s.blocked[[2]uint64{from, to}]
 }
@@ -923,7 +926,11 @@ func (s *Sim) route(c *simCall) {
 		s.out.Stat("fault_late_delivery", 1)
 	}
 	s.at(d, "deliver", func() { s.deliver(c, tgt, tgt.inc, isRaft) })
-	if faults && isRaft && s.rnet.Bool(s.cfg.Net.Dup) {
+	// Duplicates: every raft message type except a forwarded proposal. gRPC over
+	// TCP never delivers a request twice; raft tolerates duplicates of its own
+	// retransmittable messages, but a duplicated MsgProp is simply proposed (and
+	// applied) twice, which no property of this code base forbids or prevents.
+	if faults && isRaft && rm.Type != raftpb.MsgProp && s.rnet.Bool(s.cfg.Net.Dup) {
 		dup := &simCall{seq: c.seq, from: c.from, fromInc: c.fromInc, toAddr: c.toAddr, method: c.method, req: c.req, reqType: c.reqType, done: make(chan struct{}), dupOf: c}
 		s.at(d+s.latency()+time.Duration(s.rnet.Intn(300))*time.Millisecond, "deliver-dup", func() { s.deliver(dup, tgt, tgt.inc, true) })
 		s.out.Stat("fault_duplicate_raft_message", 1)
